@@ -13,16 +13,21 @@ QR_MAX = 177 * 177
 STREAM_BUF = 5430
 
 
-def sym_inputs(I, v, concrete=None):
+def sym_inputs(I, v, concrete=None, mask_some=None):
     """-> (cell holding [CompactQR, Option<Mask>], level value, stream byte values, mask parts)"""
     total = iso.total_codewords(v + 1)
     rem = iso.remainder_bits(v + 1)
     if concrete is None:
         stream = [T.var('s%d' % i, 8) for i in range(total)]
         level = T.var('lvl', 8, below=4)
-        m_some = T.var('mask_some', 1)
         m_val = T.var('mask_val', 8, below=8)
-        maskopt = I.mk([T.zext(1, 64, m_some), m_val], 'enum')
+        if mask_some is None:
+            m_some = T.var('mask_some', 1)
+            maskopt = I.mk([T.zext(1, 64, m_some), m_val], 'enum')
+        else:
+            # case split on "a mask is forced": the option is concrete, its payload stays symbolic
+            m_some = 1 if mask_some else 0
+            maskopt = I.mk([1, m_val], 'enum') if mask_some else I.mk([0], 'enum')
     else:
         stream = list(concrete['stream'])
         level = concrete['level']
@@ -57,12 +62,12 @@ class ScoreStub:
         return T.var('score%d' % k, 32)
 
 
-def run_place(prog, v, concrete=None, stub_score=True, snapshot=False):
+def run_place(prog, v, concrete=None, stub_score=True, snapshot=False, mask_some=None):
     I = M.Interp(prog)
     stub = ScoreStub(snapshot)
     if stub_score:
         I.stubs['score'] = stub
-    cell, level, stream, (m_some, m_val) = sym_inputs(I, v, concrete)
+    cell, level, stream, (m_some, m_val) = sym_inputs(I, v, concrete, mask_some)
     qr = I.call_fn(prog.resolve('place_on_matrix'), [Ptr(cell, 0), level, v, Ptr(cell, 1)])
     if qr is M.DEAD:
         raise Inconclusive('place_on_matrix diverges on every path')
